@@ -768,6 +768,13 @@ func crashGen(r *rand.Rand, n int, thorough bool) []Case {
 			closePending = false
 			cfg = fmt.Sprintf("%d %d %d %d %d %d %d %d %d", 30+r.Intn(10), []int{20, 200}[r.Intn(2)], 20, 2, 2, maxImg, nested, lossy, 0)
 		}
+		deep := c%4 == 3
+		if deep {
+			// compactions below level 1: every commit rotates, every level holds one table (target 1, ratio 1), every transaction
+			// writes keys of its own (disjoint ranges: nothing is merged away), so tables are pushed down level by level
+			closePending, manyTables = false, false
+			cfg = fmt.Sprintf("%d %d %d %d %d %d %d %d %d", 30+r.Intn(10), []int{20, 200}[r.Intn(2)], 1, 1, r.Intn(3), maxImg, nested, lossy, 0)
+		}
 		ops := []string{"open " + cfg}
 		nk := 3 + r.Intn(4)
 		ckeys := userKeys
@@ -780,11 +787,17 @@ func crashGen(r *rand.Rand, n int, thorough bool) []Case {
 			nt = 24 + r.Intn(6)
 			tags = append(tags, "many-tables-across-restarts")
 		}
+		if deep {
+			tags = append(tags, "compactions-below-level-1")
+		}
 		for i := 0; i < nt; i++ {
 			var kvs []string
 			cnt := 1 + r.Intn(4)
 			for j := 0; j < cnt; j++ {
 				k := ckeys[r.Intn(nk)]
+				if deep {
+					k = fmt.Sprintf("d%02d-%d", (i*7)%nt, j)
+				}
 				if r.Intn(6) == 0 {
 					kvs = append(kvs, hxs(k)+"=-")
 				} else {
@@ -817,6 +830,13 @@ func crashGen(r *rand.Rand, n int, thorough bool) []Case {
 			// a transaction whose only wal record has a length that is a multiple of 256 (torn length prefixes then read as 0)
 			ops = append(ops, "txn "+hxs(userKeys[r.Intn(nk)]+"-pad")+"=PAD256")
 			tags = append(tags, "record-length-multiple-of-256")
+			// … and a transaction of many keys (33 to 70): still one wal batch, all or nothing at every crash point
+			var many []string
+			for j := 0; j < 33+r.Intn(38); j++ {
+				many = append(many, hxs(fmt.Sprintf("m%02d", j))+"="+hxs(fmt.Sprintf("many%d", j)))
+			}
+			ops = append(ops, "txn "+strings.Join(many, ","))
+			tags = append(tags, "many-keys-in-one-transaction")
 		}
 		if c%3 == 0 {
 			// one large transaction at the end (its wal batch is far above 32 KiB): it must still reach the wal by one write
